@@ -213,6 +213,8 @@ package ctlog
 //@   modifies gAccepting
 //@   defines gAccepting == false
 //@   call ctlog.(*Log).sequencePool requires [C07] rotated-out: c_p == old(l.currentPool) && c_p != l.currentPool && l.inSequencing == c_p.byHash && !held(&l.poolMu)
+//@   call ctlog.(*Log).sequencePool bind poolErr = ret
+//@   returns [C06,C17] returns-exactly-the-sequencing-error: ret == poolErr
 //@   ensures [C07] in-sequencing-cleared: l.inSequencing == nil && !held(&l.poolMu)
 //@   ensures [C17] fresh-pool: l.currentPool != nil && l.currentPool != old(l.currentPool) && !closed(l.currentPool.done) && l.currentPool.err == nil
 //@   ensures [C01] tree-stays-realizable: ret == nil ==> realizable(l.tree.Tree)
